@@ -56,7 +56,7 @@ inline long long size_class (int cls, long long remaining, int B, int ch, int ts
 	}
 }
 
-inline long long target_class (int cls, long long F, int B, long long pos, Rng &r)
+inline long long target_class (int cls, long long F, int B, long long pos, Rng &r, int ch = 1)
 {	switch (cls)
 	{	case 0 : return 0 ;
 		case 1 : return F > 0 ? (long long) r.below ((uint64_t) F) : 0 ;
@@ -67,6 +67,11 @@ inline long long target_class (int cls, long long F, int B, long long pos, Rng &
 		case 6 : return F ;
 		case 7 : return F + 1 + (long long) r.below (5) ;		// out of range
 		case 8 : return -1 - (long long) r.below (5) ;			// out of range
+		case 10 :	// what remains after the seek fills a whole number of staging buffers (8192 bytes of 1, 2, 4 or 8 byte items), so that an over-long read ends exactly on a buffer boundary
+		{	static const int w [] = { 1, 2, 4, 8 } ; long long items = 8192 / w [r.below (4)] ; long long m = 1 + (long long) r.below (3) ;
+			long long t = F - m * items / (ch > 0 ? ch : 1) ;
+			return t >= 0 ? t : F / 2 ;
+		}
 		default : return pos ;
 	}
 }
@@ -142,7 +147,7 @@ inline Result run_read_history (const ReadHist &h, std::vector<std::string> &lab
 		else if (op.size () >= 3 && op [0] == 'k')
 		{	int wh = op [1] == 'S' ? SEEK_SET : op [1] == 'C' ? SEEK_CUR : SEEK_END ;
 			int cls = op [2] - '0' ;
-			long long tgt = target_class (cls, F, B, pos, r) ;
+			long long tgt = target_class (cls, F, B, pos, r, ch) ;
 			long long off = wh == SEEK_SET ? tgt : wh == SEEK_CUR ? tgt - pos : tgt - F ;
 			if (op.size () >= 4 && op [3] == 'R') wh |= SFM_READ ;
 			sf_count_t got = sf_seek (f, off, wh) ;
@@ -224,7 +229,7 @@ inline std::string gen_seek_op ()
 {	static const char wc [] = "SCE" ;
 	std::string s = "k" ;
 	s += wc [*rangeOf<int> (0, 2)] ;
-	s += (char) ('0' + *rangeOf<int> (0, 9)) ;
+	s += (char) ('0' + *rangeOf<int> (0, 10)) ;
 	if (*rangeOf<int> (0, 3) == 0) s += 'R' ;
 	return s ;
 }
